@@ -656,7 +656,7 @@ def r4_ranges_and_dispatch(ctx):
         for label, rows, cols in (("rows at the limit", (rmax, rmax), (1, 1)), ("rows above the limit", (rmax + 1, rmax + 1), (1, 1)),
                                   ("cols at the limit", (1, 1), (cmax, cmax)), ("cols above the limit", (1, 1), (cmax + 1, cmax + 1))):
             W = S.base_world(ctx, L.state, rows=rows, cols=cols, split_rows=False)
-            env = {"f": F.sym("f"), "name": F.sym("name"), "matrix": W.matrix, "digits": F.sym("digits"), "endian": F.sym("endian"), "form": F.sym("form")}
+            env = {"f": F.sym("f"), "name": F.sym("name"), "matrix": W.matrix, "fmt": F.sym("digits" if enc == "ascii" else "endian"), "form": F.sym("form")}
             try:
                 S.run_method(W, "self." + WRITERS[(enc, "dense")], env)
                 res[label] = (bool(W.raises), len(W.emits), [q for _n, q in W.raises])
@@ -690,8 +690,7 @@ def r7_input_canonical(ctx):
     W = S.World(ctx)
     W.opaque |= S.OPAQUE
     W.value_oracle = S.std_oracle("sparse", False, {"issparse": True})
-    ev = S.OP4Eval(fn, W, env={"m": F.sym("m")}, qual="_ensure_2d_dp")
-    ev.run(fn.body)
+    ev = S.run_func(W, fn, [F.sym("m")], "_ensure_2d_dp")
     ret = ev.returns[-1][0] if ev.returns else None
     if not isinstance(ret, tuple) or len(ret) != 4 or any(is_unknown(x) for x in ret):
         ctx.error("_ensure_2d_dp: the sparse arm returns (matrix, rows, cols, values)", fn, repr(ret)[:300])
@@ -735,8 +734,7 @@ def r7_input_canonical(ctx):
                 return None
             W = S.World(ctx)
             W.value_oracle = oracle
-            ev = S.OP4Eval(dp, W, env={"m": F.sym("m")}, qual="_ensure_dp")
-            ev.run(dp.body)
+            ev = S.run_func(W, dp, [F.sym("m")], "_ensure_dp")
             ret = ev.returns[-1][0] if ev.returns else None
             m = F.sym("m")
             if already:
@@ -770,10 +768,8 @@ def r7_input_canonical(ctx):
             truths = {"binary": enc == "binary", "=sparse": layout, "=endian": "<", "isinstance:Mapping": False}
             W.value_oracle = S.std_oracle("ndarray", True, truths)
             W.none_syms = set()
-            env = {k: F.sym(k) for k in ("filename", "names", "matrices", "binary", "digits", "endian", "sparse", "forms")}
             fnw = W.table["self.write"]
-            ev = S.OP4Eval(fnw, W, env=env, qual="OP4.write")
-            ev.run(fnw.body)
+            ev = S.run_func(W, fnw, [F.sym(k) for k in ("filename", "names", "matrices", "binary", "digits", "endian", "sparse", "forms")], "OP4.write")
             called = []
             for c in W.calls:
                 nm = c[0] if isinstance(c[0], str) else sym_name(c[0])
@@ -848,8 +844,7 @@ def r8_symmetry_test(ctx):
         return None
     W.value_oracle = oracle
     m = (F.sym("m0"), F.sym("r"), F.sym("c"), F.sym("v"))
-    ev = S.OP4Eval(fn, W, env={"m": m}, qual="OP4._is_symmetric")
-    ev.run(fn.body)
+    ev = S.run_func(W, fn, [m], "OP4._is_symmetric")
     ret = ev.returns[-1][0] if ev.returns else None
     rnode = ev.returns[-1][1] if ev.returns else fn
     if ret is None or is_unknown(ret) or isinstance(ret, tuple) or not is_rat(ret):
